@@ -111,6 +111,38 @@ def run(ctx):
     # numpy.outer(a, b) normalises to a @ b.T, so outer(v, conj(v)) is v @ Dagger(v)
     okc = bool(outs) and all(t[0] == "@" and len(t[1]) == 2 and t[1][1] == ("dag", t[1][0]) for t in outs)
     ctx.ob("R-COV", td, "|v><v| == outer(v, conj(v))", okc, f"{len(outs)} outer products conjugate the second factor" if okc else "an outer product does not conjugate its second factor (or conjugates the first)")
+    # every vector branch builds |v><v| = A @ Dagger(A) with A a COLUMN form of the input that carries no conjugation: the input itself
+    # (1-D or (n,1)), its flattening, or its transpose (row vector).  Dagger(x) @ x for a row vector x is conj(|v><v|).
+    Nti = Normalizer(m, td, inline=True)
+    projs = [n for n in walk_no_nested(td.node) if isinstance(n, ast.Assign) and isinstance(n.targets[0], ast.Name) and n.targets[0].id == "density_matrix"]
+    badp = None
+    nproj = 0
+    for n in projs:
+        t = Nti(n.value)
+        if t == ("n", "input_array"):
+            continue
+        nproj += 1
+        okp = False
+        if t[0] == "@" and len(t[1]) == 2:
+            a_, b_ = t[1]
+            core, par = a_, 0
+            while True:
+                if core[0] in ("conj", "dag"):
+                    par ^= 1
+                    core = core[1]
+                elif core[0] == "T":
+                    core = core[1]
+                elif core[0] == "call" and isinstance(core[1], tuple) and core[1][0] == "attr" and core[1][2] in ("flatten", "ravel", "reshape", "squeeze"):
+                    core = core[1][1]
+                else:
+                    break
+            okp = core == ("n", "input_array") and par == 0 and b_ == Nti._dag(a_) if hasattr(Nti, "_dag") else False
+        if not okp:
+            badp = badp or n
+    ctx.ob("R-COV", td, "every vector branch returns A @ Dagger(A) with A an unconjugated column form of the input", badp is None and nproj > 0,
+           f"{nproj} projector construction(s)" if badp is None else
+           f"`{unparse(badp)[:70]}` (line {badp.lineno}): the ket factor is conjugated (or the bra is not its dagger): for a complex row vector this is the "
+           "conjugate of |v><v|, still a valid density matrix, so every validity check passes while all downstream values belong to the conjugated ensemble", badp)
     passthrough = any(isinstance(n, ast.Assign) and unparse(n.value) == "input_array" for n in walk_no_nested(td.node))
     ctx.ob("R-PRED", td, "square input is returned unchanged", passthrough, "density matrices pass through" if passthrough else "square inputs are transformed")
     gm = m.func("vectors_to_gram_matrix.vectors_to_gram_matrix")
